@@ -170,10 +170,135 @@ package quic
 //@   ensures [inv] h.qInv()
 //@   ensures [queued] implies(result == nil, exists(k, 0, len(h.queue), h.queue[k].SequenceNumber == seq, trig(h.queue, k)))
 //@   ensures [grows-by-one] len(h.queue) == old(len(h.queue)) || len(h.queue) == old(len(h.queue)) + 1
+//@   ensures [array] samearray(h.queue, old(h.queue)) || isfresh(h.queue)
+//@   ensures [floor-kept] forall(q, uint64, implies(q <= seq && old(forall(k, 0, len(h.queue), h.queue[k].SequenceNumber >= q, trig(h.queue, k))), forall(k, 0, len(h.queue), h.queue[k].SequenceNumber >= q, trig(h.queue, k))))
+//@   ensures [error-kind] !istransporterr(result)
 //@   ensures [conflict] implies(result != nil, len(h.queue) == old(len(h.queue)) && old(exists(k, 0, len(h.queue), h.queue[k].SequenceNumber == seq, trig(h.queue, k))))
 //@   ensures [keeps] forall(q, uint64, implies(old(exists(k, 0, len(h.queue), h.queue[k].SequenceNumber == q, trig(h.queue, k))), exists(k, 0, len(h.queue), h.queue[k].SequenceNumber == q, trig(h.queue, k))))
 //@   modifies h.queue, h.queue[*]
 //@ loop (h *connIDManager) addConnectionID #0
 //@   invariant 0 <= rangeidx && rangeidx <= len(h.queue) && len(h.queue) >= 1
 //@   invariant forall(k, 0, rangeidx, h.queue[k].SequenceNumber < seq, trig(h.queue, k))
+//@   modifies nothing
+
+//@ func (h *connIDManager) updateConnectionID
+//@   props C16
+//@   requires h.qInv() && len(h.queue) >= 1 && !h.closed
+//@   ensures [retire-logged] called("field:queueControlFrame") == 1
+//@   ensures [active] h.activeSequenceNumber == old(h.queue[0].SequenceNumber)
+//@   ensures [retired] h.highestRetired == max(old(h.highestRetired), old(h.activeSequenceNumber))
+//@   ensures [queue] len(h.queue) == old(len(h.queue)) - 1 && h.qInv()
+//@   ensures [token-swap] called("field:addStatelessResetToken") == 1 && iff(called("field:removeStatelessResetToken") == 1, old(h.activeStatelessResetToken) != nil)
+//@   ensures [token-set] h.activeStatelessResetToken != nil
+//@   modifies h.highestRetired, h.queue, h.activeSequenceNumber, h.activeConnectionID.*, h.activeStatelessResetToken, h.packetsSinceLastChange, h.packetsPerConnectionID, h.rand.*
+
+//@ func (h *connIDManager) shouldUpdateConnID
+//@   props C16
+//@   ensures [needs-handshake] implies(result, h.handshakeComplete && len(h.queue) >= 1)
+//@   modifies nothing
+
+//@ func (h *connIDManager) Get
+//@   props C16
+//@   requires h.qInv()
+//@   panics when h.closed
+//@   ensures [rotates-with-retire] implies(h.activeSequenceNumber != old(h.activeSequenceNumber), called("field:queueControlFrame") == 1)
+//@   ensures [no-silent-retire] implies(h.activeSequenceNumber == old(h.activeSequenceNumber), called("field:queueControlFrame") == 0 && len(h.queue) == old(len(h.queue)))
+//@   modifies h.highestRetired, h.queue, h.activeSequenceNumber, h.activeConnectionID.*, h.activeStatelessResetToken, h.packetsSinceLastChange, h.packetsPerConnectionID, h.rand.*
+
+//@ func (h *connIDManager) Add
+//@   props C16 C12
+//@   requires h.qInv() && f.RetirePriorTo <= f.SequenceNumber && !h.closed
+//@   requires forall(k, 0, len(h.queue), h.queue[k].SequenceNumber >= h.highestRetired, trig(h.queue, k))
+//@   let limit = ite(h.connIDLimit != 0, h.connIDLimit, 4)
+//@   ensures [limit-advertised] implies(iserr(result, qerr.ConnectionIDLimitError), len(h.queue) >= limit)
+//@   ensures [within-limit-accepted] implies(len(h.queue) < limit, !iserr(result, qerr.ConnectionIDLimitError) || old(h.activeConnectionID.l) == 0)
+//@   ensures [inv] h.qInv()
+//@   modifies h.queue, h.queue[*], h.highestRetired, h.pathProbing[*], h.activeSequenceNumber, h.activeConnectionID.*, h.activeStatelessResetToken, h.packetsSinceLastChange, h.packetsPerConnectionID, h.rand.*
+
+//@ func (h *connIDManager) SetConnectionIDLimit
+//@   props C12 C16
+//@   ensures [recorded] h.connIDLimit == limit
+//@   modifies h.connIDLimit
+
+//@ func (h *connIDManager) add
+//@   props C16
+//@   requires h.qInv() && f.RetirePriorTo <= f.SequenceNumber && !h.closed
+//@   requires forall(k, 0, len(h.queue), h.queue[k].SequenceNumber >= h.highestRetired, trig(h.queue, k))
+//@   let early = f.SequenceNumber < max(old(h.activeSequenceNumber), old(h.highestProbingID)) || f.SequenceNumber < old(h.highestRetired)
+//@   ensures [zero-len-cid] implies(old(h.activeConnectionID.l) == 0, iserr(result, qerr.ProtocolViolation) && len(h.queue) == old(len(h.queue)))
+//@   ensures [reordered-retired] implies(old(h.activeConnectionID.l) != 0 && early, result == nil && called("field:queueControlFrame") == 1 && len(h.queue) == old(len(h.queue)) && h.highestRetired == old(h.highestRetired))
+//@   ensures [queue-retired] implies(result == nil && old(h.activeConnectionID.l) != 0 && !early, forall(k, 0, len(h.queue), h.queue[k].SequenceNumber >= f.RetirePriorTo, trig(h.queue, k)))
+//@   ensures [probing-retired] implies(result == nil && old(h.activeConnectionID.l) != 0 && !early && f.RetirePriorTo != 0 && h.pathProbing != nil,
+//@            forall(k, pathID, implies(has(h.pathProbing, k), h.pathProbing[k].SequenceNumber >= f.RetirePriorTo)))
+//@   ensures [highest-retired] h.highestRetired >= old(h.highestRetired)
+//@   ensures [error-kind] !iserr(result, qerr.ConnectionIDLimitError)
+//@   ensures [inv] h.qInv()
+//@   modifies h.queue, h.queue[*], h.highestRetired, h.pathProbing[*], h.activeSequenceNumber, h.activeConnectionID.*, h.activeStatelessResetToken, h.packetsSinceLastChange, h.packetsPerConnectionID, h.rand.*
+//@   unclaimed frame:E:uint8 T2: the queue-filter/insert paths time out in every solver; not claimed until they discharge robustly
+//@   unclaimed frame:protocol.ConnectionID.l T2: same
+//@   unclaimed frame:quic.newConnID.SequenceNumber T2: same
+//@   unclaimed inv-step:loop1.3 T2: sortedness of the filtered queue (subsequence argument) times out on the grow path
+//@   unclaimed post:queue-retired T2: one path (Retire Prior To + rotation) times out
+//@ loop (h *connIDManager) add #0
+//@   invariant forall(k, pathID, implies(in(k, visited) && has(h.pathProbing, k), h.pathProbing[k].SequenceNumber >= f.RetirePriorTo))
+//@   bodyensures implies(entry.SequenceNumber < f.RetirePriorTo, calledinloop("field:queueControlFrame") == 1 && calledinloop("field:removeStatelessResetToken") == 1)
+//@   bodyensures implies(entry.SequenceNumber >= f.RetirePriorTo, calledinloop("field:queueControlFrame") == 0)
+//@   modifies h.pathProbing[*]
+//@ loop (h *connIDManager) add #1
+//@   invariant 0 <= rangeidx && rangeidx <= len(h.queue) && len(newQueue) <= rangeidx
+//@   invariant newQueue == nil || isfresh(newQueue)
+//@   invariant forall(k, 0, len(newQueue), newQueue[k].SequenceNumber >= f.RetirePriorTo, trig(newQueue, k))
+//@   invariant forall2(j, k, 0, len(newQueue), newQueue[j].SequenceNumber < newQueue[k].SequenceNumber, trig(newQueue, j), trig(newQueue, k))
+//@   invariant implies(len(newQueue) > 0 && rangeidx < len(h.queue), newQueue[len(newQueue)-1].SequenceNumber < h.queue[rangeidx].SequenceNumber)
+//@   bodyensures iff(entry.SequenceNumber < f.RetirePriorTo, calledinloop("field:queueControlFrame") == 1)
+//@   modifies nothing
+
+// ---------------- connection ID generator (C16) ----------------
+//@ iface (g quic.ConnectionIDGenerator) ConnectionIDLen
+//@   modifies nothing
+//@ iface (g quic.ConnectionIDGenerator) GenerateConnectionID
+//@   modifies nothing
+//@ func (cr connRunners) AddConnectionID
+//@   trusted iterates the registered transports' callbacks (function values); does not touch generator state
+//@   modifies nothing
+//@ func (cr connRunners) RemoveConnectionID
+//@   trusted iterates the registered transports' callbacks (function values); does not touch generator state
+//@   modifies nothing
+//@ func (cr connRunners) ReplaceWithClosed
+//@   trusted iterates the registered transports' callbacks (function values); does not touch generator state
+//@   modifies nothing
+//@ func (r *statelessResetter) GetStatelessResetToken
+//@   trusted HMAC of the connection ID (external cryptography)
+//@   modifies nothing
+
+//@ func (m *connIDGenerator) queueConnIDForRetiring
+//@   props C16
+//@   ensures [queued] len(m.connIDsToRetire) == old(len(m.connIDsToRetire)) + 1
+//@   modifies m.connIDsToRetire, m.connIDsToRetire[*]
+
+//@ func (m *connIDGenerator) SetHandshakeComplete
+//@   props C16
+//@   ensures [forgotten] m.initialClientDestConnID == nil
+//@   ensures [queued-once] len(m.connIDsToRetire) == old(len(m.connIDsToRetire)) + ite(old(m.initialClientDestConnID) != nil, 1, 0)
+//@   modifies m.initialClientDestConnID, m.connIDsToRetire, m.connIDsToRetire[*]
+
+//@ func (m *connIDGenerator) issueNewConnID
+//@   props C16
+//@   requires m.activeSrcConnIDs != nil && m.highestSeq < 4611686018427387903 && !has(m.activeSrcConnIDs, m.highestSeq + 1) && m.statelessResetter != nil
+//@   ensures [sequence] implies(result == nil, m.highestSeq == old(m.highestSeq) + 1 && has(m.activeSrcConnIDs, m.highestSeq) && len(m.activeSrcConnIDs) == old(len(m.activeSrcConnIDs)) + 1)
+//@   ensures [announced] implies(result == nil, called("field:queueControlFrame") == 1)
+//@   ensures [failed] implies(result != nil, m.highestSeq == old(m.highestSeq) && len(m.activeSrcConnIDs) == old(len(m.activeSrcConnIDs)))
+//@   modifies m.activeSrcConnIDs[*], m.highestSeq
+
+//@ func (m *connIDGenerator) Retire
+//@   props C16
+//@   requires m.activeSrcConnIDs != nil && m.highestSeq < 4611686018427387903 && m.statelessResetter != nil && forall(k, uint64, implies(k > m.highestSeq, !has(m.activeSrcConnIDs, k)))
+//@   ensures [beyond-issued] implies(seq > old(m.highestSeq), iserr(result, qerr.ProtocolViolation) && len(m.activeSrcConnIDs) == old(len(m.activeSrcConnIDs)))
+//@   ensures [duplicate] implies(seq <= old(m.highestSeq) && !old(has(m.activeSrcConnIDs, seq)), result == nil && len(m.activeSrcConnIDs) == old(len(m.activeSrcConnIDs)) && m.highestSeq == old(m.highestSeq))
+//@   ensures [count-never-grows] len(m.activeSrcConnIDs) <= old(len(m.activeSrcConnIDs))
+//@   ensures [retired-gone] implies(result == nil && old(has(m.activeSrcConnIDs, seq)), !has(m.activeSrcConnIDs, seq))
+//@   modifies m.activeSrcConnIDs[*], m.highestSeq, m.connIDsToRetire, m.connIDsToRetire[*]
+
+//@ extern slices.IndexFunc
+//@   ensures [range] -1 <= result && result < len(s)
 //@   modifies nothing
